@@ -13,11 +13,14 @@ RULE = ("All suites run the library built from /repo with AddressSanitizer + Und
         "followed by guard bytes; each call is first tried in a forked copy of the process, so one history exposes every crashing call it contains. "
         "K17-hostile: valid histories of the other properties' generators with ~25 calls damaged by argument kind (handles replaced by hostile values or by references to "
         "objects of another kind, byte strings emptied / cut / extended to 70000 bytes / NULL with length 0, mechanisms replaced with wrong-size, wrong-structure and extreme "
-        "parameters, output sizes changed, template entries emptied, cut, extended, retyped, duplicated, nested); K17-keys: key objects of every class whose components are "
+        "parameters, output sizes changed, template entries emptied, cut, extended, retyped, duplicated, repeated up to 200 times, nested); K17-templates: every call that takes "
+        "a template (create, generate key / pair for every mechanism, unwrap, the derivations, copy, set, search) with 27..200 entries; K17-keys: key objects of every class whose components are "
         "empty, zero, one byte, random, over-long or another curve's, used in every operation a key of that class can start; K17-files: damaged token directories (length fields "
-        "of 2^63, kinds and types replaced, flips, cuts, garbage, stray files; token.object, generation and lock files too) reopened by C_Initialize and walked; while "
+        "of 2^63, kinds and types replaced, flips, cuts, garbage, stray files; structured damage that keeps the file well-formed: one attribute grown, shrunk, retyped, given another kind, duplicated or dropped; token.object, generation and lock files too) reopened by C_Initialize and walked; while "
         "token.object is intact the number of objects found is compared with the verdicts of the Lean decoder (loadcount); K17-conf: damaged softhsm2.conf contents. "
-        "A violation is a sanitizer report, a signal, an exit() from inside the library, a write behind an announced buffer, or a loader/decoder disagreement.")
+        "Every hostile history ends with calls of the entry points no generator reaches (C_GetInfo, C_GetFunctionList, C_GetSlotInfo, C_GetTokenInfo, C_WaitForSlotEvent, "
+        "C_Get/SetOperationState, C_Sign/VerifyRecover(Init), the four dual-function updates, C_GetFunctionStatus, C_CancelFunction, NULL output pointers of the query calls) "
+        "so that all 68 entry points are exercised. A violation is a sanitizer report, a signal, an exit() from inside the library, a write behind an announced buffer, or a loader/decoder disagreement.")
 TRUSTED = ["ASan/UBSan of clang/gcc as the observer of memory errors; C++ harness p11drv (fork isolation, guard bytes) + python generators",
            "memory safety of the C++ code is OBSERVED on the generated inputs, not proved: the theorems cover the modelled parsing and size arithmetic only"]
 ASSUMPTIONS = ["pointer arguments reference memory of the stated sizes (the harness owns every buffer); NULL only where PKCS#11 allows it or with length 0",
@@ -73,6 +76,7 @@ def run_k(ctx, kres):
     v = []
     n = 60 if q else 1500
     v += k_suite(ctx, kres, "K17-hostile", [Trace("hostile%d" % i, gen.hostile_history(ctx.seed * 6007 + i, tables), "asan", env=ENV) for i in range(n)], lambda m: False, direct=direct, shrink_budget=60)
+    v += k_suite(ctx, kres, "K17-templates", [Trace("templates%d" % i, gen.long_template_history(ctx.seed * 6043 + i), "asan", env=ENV) for i in range(2 if q else 12)], lambda m: False, direct=direct, shrink_budget=60)
     n = 60 if q else 1500
     v += k_suite(ctx, kres, "K17-keys", [Trace("keys%d" % i, gen.degenerate_key_history(ctx.seed * 6011 + i), "asan", env=ENV) for i in range(n)], lambda m: False, direct=direct, shrink_budget=60)
     n = 80 if q else 2500
